@@ -322,9 +322,15 @@ def run_resolve_case(case, res):
   res.case(tuple(map(repr, case)), len(cells) >= 2)
   present = {}
   for (name, reader) in cells:
-    if name not in locs or (name == '' and reader == 'real'):
+    if name not in locs or (name == '' and reader in ('real', 'dir')):
       continue                                   # the current directory is not written to
     path = os.path.join(prefix(name), 'cfg.gin')
+    if reader == 'dir':
+      # a DIRECTORY of that name in this location: nothing a reader can read, resolution moves on
+      if [name, 'real'] not in [list(c) for c in cells]:
+        os.makedirs(path)
+        res.w('directory_named_like_the_file')
+      continue
     text = "c14.f.x = 'cell:%s:%s'\n" % (name, reader)
     if reader == 'real':
       with open(path, 'w') as fh:
@@ -401,8 +407,8 @@ def resolve_cases(tier):
              ['locA', ''], ['locB', 'locA', 'locA', 'locB'], ['locA', 'locB', 'locC', 'locA']]
   for order in orders:
     names = [''] + sorted(set(order) - {''})
-    cells = [(n, r) for n in names for r in ('real', 'm1', 'm2') if not (n == '' and r == 'real')]
-    if len(cells) <= 8:
+    cells = [(n, r) for n in names for r in ('real', 'm1', 'm2', 'dir') if not (n == '' and r in ('real', 'dir'))]
+    if len(cells) <= 10:
       subsets = [c for n in range(len(cells) + 1) for c in itertools.combinations(cells, n)]
     else:
       sizes = (0, 1, 2, len(cells)) if tier == 'quick' else (0, 1, 2, 3, len(cells))
